@@ -382,7 +382,12 @@ impl Check for C01 {
         "C01"
     }
     fn profiles(&self) -> Vec<ProfileSpec> {
-        vec![ProfileSpec { name: "adversary-mix", quick: 20_000, thorough: 1_250_000 }]
+        vec![
+            ProfileSpec { name: "adversary-mix", quick: 20_000, thorough: 1_250_000 },
+            // "served only after verified data was stored" needs somebody asking: leechers that
+            // request pieces still in flight, with stale files of those pieces lying around
+            ProfileSpec { name: "leechers", quick: 4_000, thorough: 200_000 },
+        ]
     }
     fn rule(&self) -> &'static str {
         "profile adversary-mix: 1-3 honest seeders + 1-5 adversarial peers (corrupt block at (piece,block), duplicates, blocks for other pieces / wrong offsets / unrequested blocks, truncated block frame then Rst, disconnect after k blocks, disk write errors), 2-25 pieces on both sides of the end-game threshold, yields on. Non-trivial: >= 1 corrupt, misplaced or unrequested block reached an open epoch, or a disk write failed. Distinct: interleaving hash x geometry class."
@@ -678,7 +683,19 @@ impl Check for C09 {
         let last = v.out.entries.last().map(|e| e.seq).unwrap_or(0);
         for (m, l) in &v.out.panics {
             let who = crate::check::attribute_panic(m, l);
-            if who == "C09" {
+            // a panic while the last thing any connection decoded was a block request belongs to
+            // the upload path, wherever it surfaces (connection task or manager)
+            let last_is_request = v
+                .out
+                .entries
+                .iter()
+                .rev()
+                .find_map(|e| match &e.ev {
+                    Ev::Decoded { frame, .. } => Some(frame.starts_with("Request")),
+                    _ => None,
+                })
+                .unwrap_or(false);
+            if who == "C09" || last_is_request {
                 vd.fail("C09", "C09.panic", format!("connection task panicked: {:?} at {}", m, l), last);
             } else if vd.inconclusive.is_none() {
                 vd.inconclusive = Some(format!("{} ({} at {})", who, m, l));
